@@ -18,11 +18,22 @@ package report
 //@           invariant forall k int :: 0 <= k && k < i ==> ex[k] == old(ex)[len(ex) - 1 - k] && ex[len(ex) - 1 - k] == old(ex)[k]
 //@           invariant forall k int :: i <= k && k < len(ex) - i ==> ex[k] == old(ex)[k]
 
+// visitAllMulti calls f once per node of the visible tree (the node, its single cause's subtree,
+// every multi-cause branch's subtree): the number of calls is errbase.treeSize(err)
+//@ func visitAllMulti
+//@   props C15
+//@   callbackparam f
+//@   groundunfold sizeTo treeSize
+//@   requires err != nil && f != nil
+//@   ensures $ncalls == old($ncalls) + errbase.treeSize(err)
+//@   loop 1: invariant $ncalls == old($ncalls) + 1 + (cause1(err) != nil ? errbase.treeSize(cause1(err)) : 0) + errbase.sizeTo(causes(err), $n)
+
 //@ func BuildSentryReport
 //@   props C15
-//@   groundunfold cntSt
+//@   groundunfold cntSt treeSize sizeTo
 //@   ensures err == nil ==> event == nil && extraDetails == nil
 //@   ensures err != nil ==> event != nil && len(stacks) == len(details)
+//@   ensures err != nil ==> len(details) == errbase.treeSize(err)
 //@   ensures err != nil ==> fresh(event) && fresh(event.Extra) && fresh(event.Tags) && fresh(extraDetails)
 //@   ensures err != nil && cntSt(stacks, 0) == 0 ==> len(event.Exception) == 1 && event.Exception[0].Module == domainOf(err) && event.Exception[0].Stacktrace == nil
 //@   ensures err != nil && cntSt(stacks, 0) > 0 ==> len(event.Exception) == cntSt(stacks, 0)
@@ -31,7 +42,7 @@ package report
 //@   callback visitAllMulti: invariant len(stacks) == $ncalls && len(details) == $ncalls
 //@                           invariant forall k int :: 0 <= k && k < $ncalls ==> details[k] == errbase.sdOf($call(k))
 //@   loop 1: isolated
-//@           invariant 0 - 1 <= i && i < len(details) && len(stacks) == len(details)
+//@           invariant 0 - 1 <= i && i < len(details) && len(stacks) == len(details) && len(details) == errbase.treeSize(err)
 //@           invariant len(exceptions) == cntSt(stacks, i + 1) && module == domainOf(err)
 //@           invariant hasPrefix(sbContent(longMsgBuf), (withstack.olsOk(err) ? sprintf2("%s:%d: ", ifaceOf(withstack.olsFile(err)), ifaceOf(withstack.olsLine(err))) : "") + verboseErr)
 //@           invariant forall j int :: i < j && j < len(stacks) && stacks[j] != nil ==> cntSt(stacks, j + 1) < len(exceptions) && 0 <= cntSt(stacks, j + 1)
